@@ -4,6 +4,7 @@ import (
 	"fmt"
 	"os"
 	"reflect"
+	"runtime"
 	"time"
 )
 
@@ -44,6 +45,7 @@ type Explorer struct {
 	stop           bool
 	quiet          bool
 	diverged       bool
+	execs          int
 }
 
 func (e *Explorer) raceGrew() (bool, string) {
@@ -64,6 +66,11 @@ func (e *Explorer) raceGrew() (bool, string) {
 }
 
 func (e *Explorer) runOne(prefix []int, expect []Step) *Result {
+	// scenarios may switch the collector off while an execution runs (a finalizer must not release a leaked lock at a
+	// random moment); collect explicitly between executions, or a long exploration grows without bound
+	if e.execs++; e.execs%256 == 0 {
+		runtime.GC()
+	}
 	bodies, check := e.Scenario()
 	r := Run(prefix, bodies)
 	if !e.quiet {
